@@ -39,3 +39,4 @@ func vSyncEvents() int
 func vNote(s string)
 func vFail(label string)
 func vDebug(args ...interface{})
+func vConcurrent(f func(), n int)
